@@ -50,6 +50,11 @@ def contracts():
     cs.append(C("_parser_pop", params={"ctx": "ctx", "warn_unclosed": "bool"},
                 requires=[OK, "seq_len(ctx.parser_stack) >= 2"],
                 ensures=[OK, "implies(not warn_unclosed, ctx.parser_stack == old(ctx.parser_stack)[:-1])"]))
+    # _parser_have: true exactly when a node of one of the given kinds is on the stack (the scan runs to
+    # exhaustion only if every node took the fall-through path)
+    cs.append(C("_parser_have", params={"ctx": "ctx", "kind_flags": "kindset"}, modifies=[], requires=[],
+                loops={"for node in ctx.parser_stack": {"exhaustive": True}},
+                ensures=["result == has_kind(ctx.parser_stack, kind_flags)"], result="bool"))
     cs.append(C("close_begline_lists", params={"ctx": "ctx"}, requires=[OK], ensures=[OK]))
     for h in VERIFIED:
         kw = {}
@@ -78,11 +83,6 @@ CALLBACK_CONTRACTS = {"handler": HANDLER_CB}
 
 def setup_registry(reg):
     reg.callback_contracts.update(CALLBACK_CONTRACTS)
-    reg.add(Contract(target="parser:_parser_have", variant="callee", prop="C01", mode="frame",
-                     node_stack="parser_stack", result="bool",
-                     callee_ensures=["result == has_kind(ctx.parser_stack, kind_flags)"],
-                     assumed=["_parser_have(ctx, flags) is true exactly when a node of one of those kinds is on the "
-                              "stack (validated by the bounded tier)"]))
     reg.add(Contract(target="parser:_parser_merge_str_children", variant="callee", prop="C01", mode="frame",
                      node_stack="parser_stack", requires=["seq_len(ctx.parser_stack) >= 1"],
                      assumed=["_parser_merge_str_children reads the top of the stack only (its own contract: contracts/c01.py)"]))
